@@ -24,9 +24,11 @@ GUARD = "VOTCA_VERIF"
 NPROC = int(os.environ.get("VF_JOBS", os.cpu_count() or 4))
 
 FLAVOURS = {
+    # -fno-builtin-floor: gcc 12 folds (Index)floor(x) into lfloor before the
+    # float-cast-overflow instrumentation sees the conversion
     "asan": "-O1 -g1 -fno-omit-frame-pointer -fsanitize=address,undefined "
             "-fsanitize=float-cast-overflow -fno-sanitize-recover=all "
-            "-D_GLIBCXX_ASSERTIONS",
+            "-fno-builtin-floor -D_GLIBCXX_ASSERTIONS",
     "tsan": "-O1 -g1 -fno-omit-frame-pointer -fsanitize=thread",
     "fast": "-O2 -g1",
 }
@@ -37,7 +39,8 @@ LINK_FLAGS = {
 }
 CSG_TARGETS = ["votca_tools", "votca_csg", "csg_map", "csg_stat", "csg_fmatch",
                "csg_imc_solve", "csg_resample", "csg_reupdate", "csg_density",
-               "csg_dump", "votca_property", "csg_boltzmann"]
+               "csg_dump", "votca_property", "csg_boltzmann", "orientcorr",
+               "partial_rdf"]
 
 SAN_ENV = {
     "ASAN_OPTIONS": "abort_on_error=1:detect_leaks=0:"
@@ -95,9 +98,12 @@ def build_flavour(fl, targets=None):
     d = flavour_dir(fl)
     targets = targets or CSG_TARGETS
     with FileLock(os.path.join(BUILD_ROOT, fl + ".lock")):
-        if not os.path.exists(os.path.join(d, "build.ninja")):
+        flags = FLAVOURS[fl] + " -D" + GUARD
+        stamp = os.path.join(d, ".vf_flags")
+        stale = os.path.exists(stamp) and open(stamp).read() != flags
+        if not os.path.exists(os.path.join(d, "build.ninja")) or stale or \
+                not os.path.exists(stamp):
             os.makedirs(d, exist_ok=True)
-            flags = FLAVOURS[fl] + " -D" + GUARD
             cmd = ["cmake", "-S", REPO, "-B", d, "-G", "Ninja",
                    "-DBUILD_TESTING=OFF", "-DBUILD_MANPAGES=OFF",
                    "-DBUILD_XTP=OFF", "-DINJECT_MARCH_NATIVE=OFF",
@@ -111,6 +117,7 @@ def build_flavour(fl, targets=None):
                 shutil.rmtree(d, ignore_errors=True)
                 raise HarnessFailure("cmake configure failed (%s):\n%s" %
                                      (fl, r.stdout[-3000:]))
+            open(stamp, "w").write(flags)
         t0 = time.time()
         r = sh(["ninja", "-C", d, "-j", str(NPROC)] + targets,
                stdout=subprocess.PIPE, stderr=subprocess.STDOUT, text=True)
